@@ -690,6 +690,10 @@ struct C03 : World, TtxWorldBase {
         o.task = prev.task; pg = (int)prev.a[0]; sub = prev.a[1] % 3 + 1; more |= 1;
       }
       o.a = {pg, sub, (int64_t)r.below(8), erase, (int64_t)r.below(1u << 30), flags, (int64_t)r.below(6), enumerate ? 1 + (int64_t)r.below(5) : (int64_t)r.below(24), clock, more};
+      // a[10]: the other control bits of the header, the same in every cycle (C5 newsflash, C6 subtitle, C7 suppress header, C8 update
+      // indicator, C9 interrupted sequence, C10 inhibit display; absent in older replay files: none): they change how the page is
+      // presented, never whether or under which number it is stored or how errors are treated
+      { Rng rc((uint64_t)o.a[4], "ctrl"); if (rc.chance(1, 3)) o.a.push_back((int64_t)(rc.below(64) << 5)); }
       p.ops.push_back(o);
     }
     if (!enumerate) {
@@ -779,9 +783,9 @@ struct C03 : World, TtxWorldBase {
         // the transmission in progress in this magazine (every packet record carries its subcode, erase flag, cycle)
         int cur_seq = -1, cur_pgno = 0, cur_sub = 0, cur_cycle = 0; bool cur_erase = false, cur_x26 = false;
         auto add = [&](const ttx::Packet& pk) { Rec rc{pk, m, cur_seq, cur_x26, cur_pgno}; rc.sub = cur_sub; rc.erase = cur_erase; rc.cycle = cur_cycle; out.push_back(rc); };
-        auto hdr = [&](int page, int sub, int nat, bool erase, int seq, bool x26, int cycle) {
+        auto hdr = [&](int page, int sub, int nat, bool erase, int seq, bool x26, int cycle, unsigned more_ctrl = 0) {
           int pgno = mag * 256 + page; uint8_t text[32]; header_text(pgno, text);
-          unsigned ctrl = ttx::ctrl_national(nat) | (erase ? ttx::C4_ERASE : 0) | (serial ? ttx::C11_SERIAL : 0);
+          unsigned ctrl = ttx::ctrl_national(nat) | (erase ? ttx::C4_ERASE : 0) | (serial ? ttx::C11_SERIAL : 0) | more_ctrl;
           cur_seq = seq; cur_pgno = pgno; cur_sub = sub; cur_cycle = cycle; cur_erase = erase; cur_x26 = x26;
           add(ttx::header(mag, page, sub, ctrl, text));
           transmitted.insert(pkey(pgno, sub));
@@ -816,7 +820,7 @@ struct C03 : World, TtxWorldBase {
           Rng r((uint64_t)op->arg(4) + ((more & 2) ? 0 : (uint64_t)cyc * 1000003u), "content"); int flags = (int)op->arg(5);
           int seq = page_seq++; bool x26 = flags & 16;
           page_begin(m);
-          hdr(page, sub, nat, erase, seq, x26, cyc);
+          hdr(page, sub, nat, erase, seq, x26, cyc, (unsigned)(llabs(op->arg(10)) & (ttx::C5_NEWSFLASH | ttx::C6_SUBTITLE | ttx::C7_SUPPRESS | ttx::C8_UPDATE | ttx::C9_INTERRUPTED | ttx::C10_INHIBIT)));
           sched.yield();
           int nrows = (int)(llabs(op->arg(7)) % 24);
           std::vector<int> ys;
